@@ -57,8 +57,44 @@ type srvRig struct {
 	gates     map[int]chan struct{}
 	started   map[int]chan struct{}
 	accepted  int32
+	seen      map[int][]seenRec
 	pooledBad int32
 	pooledReplyBad int32
+}
+
+type seenRec struct {
+	args SArgs
+	meta map[string]string
+}
+
+// observe records what the handler was given and derives response metadata from the request's
+// "e:" entries (binary-safe echo), so that every ingress can be compared on what the handler saw
+// and on what comes back.
+func (r *srvRig) observe(ctx context.Context, a *SArgs) {
+	m, _ := ctx.Value(share.ReqMetaDataKey).(map[string]string)
+	cp := map[string]string{}
+	for k, v := range m {
+		cp[k] = v
+	}
+	r.mu.Lock()
+	if r.seen == nil {
+		r.seen = map[int][]seenRec{}
+	}
+	r.seen[a.ID] = append(r.seen[a.ID], seenRec{args: *a, meta: cp})
+	r.mu.Unlock()
+	if rm, ok := ctx.Value(share.ResMetaDataKey).(map[string]string); ok {
+		for k, v := range m {
+			if strings.HasPrefix(k, "e:") {
+				rm["r:"+k[2:]] = v + "|" + fmt.Sprint(a.ID)
+			}
+		}
+	}
+}
+
+func (r *srvRig) seenFor(id int) []seenRec {
+	r.mu.Lock()
+	defer r.mu.Unlock()
+	return append([]seenRec(nil), r.seen[id]...)
 }
 
 func (r *srvRig) markInvoked(id int) {
@@ -116,6 +152,7 @@ func (s *rigSvc) Do(ctx context.Context, a *SArgs, rp *SReply) error {
 			s.r.s.SendMessage(conn, "push", "p", nil, pushPayload(a.ID, a.Size))
 		}
 	}
+	s.r.observe(ctx, a)
 	return s.body(a, rp)
 }
 
@@ -254,7 +291,10 @@ func newSrvRig(o srvOpts) (*srvRig, error) {
 	if err := s.RegisterName("Svc", svc, ""); err != nil {
 		return nil, err
 	}
-	if err := s.RegisterFunctionName("Fn", "Do", func(ctx context.Context, a *SArgs, rp *SReply) error { return svc.body(a, rp) }, ""); err != nil {
+	if err := s.RegisterName("dotted.path.Svc", svc, ""); err != nil {
+		return nil, err
+	}
+	if err := s.RegisterFunctionName("Fn", "Do", func(ctx context.Context, a *SArgs, rp *SReply) error { r.observe(ctx, a); return svc.body(a, rp) }, ""); err != nil {
 		return nil, err
 	}
 	s.AddHandler("Rt", "Do", func(ctx *server.Context) error {
